@@ -427,9 +427,29 @@ func (c *cutCtx) addedRow(t string, f map[string]string, raw string, add func(si
 			}
 		}
 	case "peering-secret-uuids":
+		// only the DIALER shape: the uuid is the active stream secret of a peering that dials (PeerServerAddresses
+		// set), whose Establish path never tracked it online. An accepting peering tracks all its secrets online,
+		// so any difference there (and any LOST uuid) keeps the generic signature.
 		id := unq(raw)
 		for _, r := range c.a["peering-secrets"] {
-			if nested(topFields(r)["Stream"], "ActiveSecretID") == id {
+			f := topFields(r)
+			if nested(f["Stream"], "ActiveSecretID") != id {
+				continue
+			}
+			peeringKnown := false
+			for _, pr := range c.a["peering"] {
+				pf := topFields(pr)
+				if unq(pf["ID"]) == unq(f["PeerID"]) {
+					peeringKnown = true
+					if pf["PeerServerAddresses"] != "" {
+						add("peering-secret-uuids:active-secret-added-by-restore", desc)
+						return
+					}
+				}
+			}
+			// secrets row orphaned by PeeringDelete (the peering row is gone, so its side cannot be read any more):
+			// accept only the pure dialer shape — nothing but an active secret
+			if !peeringKnown && f["Establishment"] == "" && nested(f["Stream"], "PendingSecretID") == "" {
 				add("peering-secret-uuids:active-secret-added-by-restore", desc)
 				return
 			}
